@@ -580,3 +580,46 @@ func TestC18_R_SymlinksOnProcfs(t *testing.T) {
 		t.Log("no link with a long target and an under-reported size could be made here")
 	}
 }
+
+// Regular files whose reported size is not what reading them delivers: sysfs attributes report 4096 for a few bytes, procfs
+// files report 0 for any amount. The imported file reads back to the bytes that reading the on-disk file delivers.
+func TestC18_R_FilesWhoseSizeIsMisreported(t *testing.T) {
+	cands := []string{"/sys/devices/system/cpu/online", "/sys/devices/system/cpu/possible", "/sys/kernel/mm/transparent_hugepage/enabled", "/proc/filesystems", "/proc/devices", "/proc/kallsyms"}
+	if m, _ := filepath.Glob("/sys/block/*/size"); len(m) > 0 {
+		cands = append(cands, m[0])
+	}
+	used := 0
+	for _, p := range cands {
+		fi, err := os.Lstat(p)
+		if err != nil || !fi.Mode().IsRegular() {
+			continue
+		}
+		before, err := os.ReadFile(p)
+		if err != nil {
+			continue
+		}
+		st := NewStore()
+		l, _, ierr := builder.BuildUnixFSRecursive(p, st.LinkSystem())
+		after, err := os.ReadFile(p)
+		if err != nil || !bytes.Equal(before, after) {
+			continue // it changed meanwhile
+		}
+		if ierr != nil {
+			t.Fatalf("C18: import of the regular file %s (%d bytes of content, reported size %d): %v", p, len(before), fi.Size(), ierr)
+		}
+		rn, err := c01Open(st, cidOf(l), "Reify")
+		if err != nil {
+			t.Fatal(err)
+		}
+		got, err := rn.AsBytes()
+		if err != nil || !bytes.Equal(got, before) {
+			t.Fatalf("C18: %s (%d bytes of content, reported size %d) imported and read back: %d bytes (err %v); first difference at %d", p, len(before), fi.Size(), len(got), err, firstDiff(got, before))
+		}
+		if fi.Size() != int64(len(before)) {
+			used++
+		}
+	}
+	if used == 0 {
+		t.Log("no readable file with a misreported size here")
+	}
+}
